@@ -167,22 +167,7 @@ func runC12(c *core.Ctx) {
 
 	// ---------------- R12a who-may-write
 	writers := map[string]int{}
-	allowed := map[*ssa.Function]bool{}
-	var grow func(f *ssa.Function)
-	grow = func(f *ssa.Function) {
-		if f == nil || allowed[f] || core.FuncPkg(f) != r.idr || !r.nodeAPIFunc(f) {
-			return
-		}
-		allowed[f] = true
-		for _, ci := range core.Calls(f) {
-			grow(ci.Common().StaticCallee())
-		}
-	}
-	grow(r.addChild)
-	grow(r.remove)
-	for _, rf := range r.resetFns {
-		grow(rf)
-	}
+	allowed := c12AllowedWriters(r)
 	for _, f := range fns {
 		for _, w := range core.Writes(f) {
 			hit := ""
@@ -207,9 +192,19 @@ func runC12(c *core.Ctx) {
 	c.Floor("R12a", 15, "stores in reset, AddChild, RemoveAndReleaseTree")
 	c.Note("R12a writers: %v", writers)
 
+	c12PoolRules(c, r, fns, allowed, "R12b", "R12c", "R12d")
+
+	runR12e(c, r, fns)
+	runR12f(c, r, fns)
+	runR12g(c, r)
+}
+
+// c12PoolRules: reset exhaustiveness/blankness (rb), atomic-only ID counter (rc), pool discipline and
+// use-after-release (rd). Shared with C13 (pools are semantically invisible only if a recycled node is blank).
+func c12PoolRules(c *core.Ctx, r *c12roles, fns []*ssa.Function, allowed map[*ssa.Function]bool, rb, rc, rd string) {
 	// ---------------- R12b reset is exhaustive and blank
 	if len(r.resetFns) != 1 {
-		c.Unresolved("R12b", "reset function", fmt.Sprintf("expected exactly one *Node method storing Node.ID, found %d", len(r.resetFns)))
+		c.Unresolved(rb, "reset function", fmt.Sprintf("expected exactly one *Node method storing Node.ID, found %d", len(r.resetFns)))
 	} else {
 		reset := r.resetFns[0]
 		recv := reset.Params[0]
@@ -231,7 +226,7 @@ func runC12(c *core.Ctx) {
 				}
 			}
 			if len(stores) == 0 {
-				c.Bad("R12b", key, reset.Pos(), "reset does not store this field: a recycled node would carry the previous owner's value")
+				c.Bad(rb, key, reset.Pos(), "reset does not store this field: a recycled node would carry the previous owner's value")
 				continue
 			}
 			okAll := true
@@ -247,7 +242,7 @@ func runC12(c *core.Ctx) {
 				}
 			}
 			if !okAll {
-				c.Bad("R12b", key, stores[0].Pos, "field is not stored on every path through reset")
+				c.Bad(rb, key, stores[0].Pos, "field is not stored on every path through reset")
 				continue
 			}
 			last := stores[len(stores)-1]
@@ -258,23 +253,23 @@ func runC12(c *core.Ctx) {
 					cf = call.Call.StaticCallee()
 				}
 				if cf == nil || !returnsAtomicAdd(cf, r) {
-					c.Bad("R12b", key, last.Pos, "ID is not the result of the atomic counter function")
+					c.Bad(rb, key, last.Pos, "ID is not the result of the atomic counter function")
 					continue
 				}
 				r.counterFn = cf
-				c.OK("R12b", key, last.Pos, "ID = "+core.FuncKey(cf)+"() (atomic counter)")
+				c.OK(rb, key, last.Pos, "ID = "+core.FuncKey(cf)+"() (atomic counter)")
 			} else if core.IsZeroConst(last.Val) {
-				c.OK("R12b", key, last.Pos, "stored with the zero value")
+				c.OK(rb, key, last.Pos, "stored with the zero value")
 			} else {
-				c.Bad("R12b", key, last.Pos, "field reset to a non-zero value: fresh nodes would not be blank")
+				c.Bad(rb, key, last.Pos, "field reset to a non-zero value: fresh nodes would not be blank")
 			}
 		}
 	}
-	c.Floor("R12b", 9, "fields of idr.Node")
+	c.Floor(rb, 9, "fields of idr.Node")
 
 	// ---------------- R12c counter only through sync/atomic
 	if r.counterG == nil {
-		c.Unresolved("R12c", "ID counter variable", "could not identify the package-level counter behind Node.ID")
+		c.Unresolved(rc, "ID counter variable", "could not identify the package-level counter behind Node.ID")
 	} else {
 		n := 0
 		for _, f := range fns {
@@ -287,25 +282,25 @@ func runC12(c *core.Ctx) {
 						n++
 						key := core.FuncKey(f) + " uses " + r.counterG.Name()
 						if ci, ok := in.(ssa.CallInstruction); ok && isAtomicCall(ci) {
-							c.OK("R12c", key, core.InstrPos(in), "address passed to sync/atomic")
+							c.OK(rc, key, core.InstrPos(in), "address passed to sync/atomic")
 						} else if st, ok := in.(*ssa.Store); ok && st.Addr == r.counterG && f.Name() == "init" && f.Synthetic != "" {
-							c.OK("R12c", key, core.InstrPos(in), "package initialiser (happens before any goroutine can use the package)")
+							c.OK(rc, key, core.InstrPos(in), "package initialiser (happens before any goroutine can use the package)")
 						} else {
-							c.Bad("R12c", key, core.InstrPos(in), "plain (non-atomic) access to the node ID counter: two goroutines could obtain equal IDs")
+							c.Bad(rc, key, core.InstrPos(in), "plain (non-atomic) access to the node ID counter: two goroutines could obtain equal IDs")
 						}
 					}
 				}
 			}
 		}
 		if n == 0 {
-			c.Unresolved("R12c", "uses of ID counter", "no use found")
+			c.Unresolved(rc, "uses of ID counter", "no use found")
 		}
 	}
-	c.Floor("R12c", 1, "atomic.AddInt64(&nodeID)")
+	c.Floor(rc, 1, "atomic.AddInt64(&nodeID)")
 
 	// ---------------- R12d pool discipline
 	if len(r.pools) == 0 {
-		c.Unresolved("R12d", "node pool", "no package-level sync.Pool in package idr")
+		c.Unresolved(rd, "node pool", "no package-level sync.Pool in package idr")
 	}
 	for _, f := range fns {
 		for _, ci := range core.Calls(f) {
@@ -329,7 +324,7 @@ func runC12(c *core.Ctx) {
 			}
 			key := core.FuncKey(f) + " " + name
 			if core.FuncPkg(f) != r.idr || !r.nodeAPIFunc(f) {
-				c.Bad("R12d", key, core.InstrPos(ci), "node pool used outside the node API")
+				c.Bad(rd, key, core.InstrPos(ci), "node pool used outside the node API")
 				continue
 			}
 			if name == "Pool.Get" {
@@ -344,7 +339,7 @@ func runC12(c *core.Ctx) {
 						}
 					}
 				}
-				c.Check(okUse, "R12d", key, core.InstrPos(ci), "pool result only type-asserted to *Node", "pool result used other than through a *Node assertion")
+				c.Check(okUse, rd, key, core.InstrPos(ci), "pool result only type-asserted to *Node", "pool result used other than through a *Node assertion")
 				continue
 			}
 			arg := core.Unwrap(ci.Common().Args[1], true)
@@ -360,7 +355,7 @@ func runC12(c *core.Ctx) {
 					}
 				}
 			}
-			c.Check(dominated, "R12d", key, core.InstrPos(ci), "Put is dominated by reset of the same node",
+			c.Check(dominated, rd, key, core.InstrPos(ci), "Put is dominated by reset of the same node",
 				"node handed to the pool without a dominating reset of the same value: another goroutine may Get it while it still carries links/data")
 		}
 	}
@@ -394,7 +389,7 @@ func runC12(c *core.Ctx) {
 					continue
 				}
 				key := core.FuncKey(f) + " Pool.New"
-				c.Check(returnsResetNode(fnv, r, 0), "R12d", key, core.InstrPos(in), "New returns a node that passed through reset", "pool New returns a node that was not reset (no ID)")
+				c.Check(returnsResetNode(fnv, r, 0), rd, key, core.InstrPos(in), "New returns a node that passed through reset", "pool New returns a node that was not reset (no ID)")
 			}
 		}
 	}
@@ -449,17 +444,14 @@ func runC12(c *core.Ctx) {
 				return true
 			})
 			if bad.IsValid() {
-				c.Bad("R12d", key, bad, what+" after the call that returned it to the pool")
+				c.Bad(rd, key, bad, what+" after the call that returned it to the pool")
 			} else {
-				c.OK("R12d", key, core.InstrPos(ci), "no use of the released value after the release")
+				c.OK(rd, key, core.InstrPos(ci), "no use of the released value after the release")
 			}
 		}
 	}
-	c.Floor("R12d", 10, "Put, Get, New and release sites")
+	c.Floor(rd, 10, "Put, Get, New and release sites")
 
-	runR12e(c, r, fns)
-	runR12f(c, r, fns)
-	runR12g(c, r)
 }
 
 func isOnlyStored(fa *ssa.FieldAddr) bool {
@@ -600,8 +592,8 @@ func runR12e(c *core.Ctx, r *c12roles, fns []*ssa.Function) {
 			continue
 		}
 		for _, ci := range core.Calls(f) {
-			if ci.Common().StaticCallee() == r.remove {
-				if fa := holderLoad(ci.Common().Args[0], r); fa != nil {
+			if ra := releaseArg(ci, r, 0); ra != nil {
+				if fa := holderLoad(ra, r); fa != nil {
 					if _, isParamBase := fa.X.(*ssa.Parameter); isParamBase {
 						addHolder(fa)
 					}
@@ -627,10 +619,10 @@ func runR12e(c *core.Ctx, r *c12roles, fns []*ssa.Function) {
 			continue
 		}
 		for _, ci := range core.Calls(f) {
-			if ci.Common().StaticCallee() != r.remove {
+			arg := releaseArg(ci, r, 0)
+			if arg == nil {
 				continue
 			}
-			arg := ci.Common().Args[0]
 			key := core.FuncKey(f) + " releases "
 			if fa := holderLoad(arg, r); fa != nil {
 				fld := core.FieldOfAddr(fa)
@@ -658,7 +650,7 @@ func runR12e(c *core.Ctx, r *c12roles, fns []*ssa.Function) {
 							return
 						case ssa.CallInstruction:
 							// a call to a method of the same receiver may read the holder
-							if cf := x.Common().StaticCallee(); cf != nil && cf != r.remove && readsField(cf, fld, 0) && !badPos.IsValid() {
+							if cf := x.Common().StaticCallee(); cf != nil && releaseArg(x, r, 0) == nil && readsField(cf, fld, 0) && !badPos.IsValid() {
 								badPos, why = core.InstrPos(x), "calls "+core.FuncKey(cf)+" which reads the holder, before it is overwritten"
 								return
 							}
@@ -965,4 +957,53 @@ func writesField(f *ssa.Function, fld *types.Var, depth int) bool {
 		}
 	}
 	return false
+}
+
+// releaseArg: if ci releases a node — RemoveAndReleaseTree(x), an interface call Release(x) on a *Node, or a
+// static call of a Release-style method that hands its parameter to one of those — returns x.
+func releaseArg(ci ssa.CallInstruction, r *c12roles, depth int) ssa.Value {
+	cc := ci.Common()
+	if cc.IsInvoke() {
+		if cc.Method.Name() == "Release" && len(cc.Args) == 1 && isPtrToNamed(cc.Args[0].Type(), r.node) {
+			return cc.Args[0]
+		}
+		return nil
+	}
+	cf := cc.StaticCallee()
+	if cf == nil {
+		return nil
+	}
+	if cf == r.remove {
+		return cc.Args[0]
+	}
+	if depth > 2 || cf.Blocks == nil || cf.Signature.Recv() == nil || len(cf.Params) != 2 || !isPtrToNamed(cf.Params[1].Type(), r.node) || !core.InRepo(core.FuncPkg(cf)) {
+		return nil
+	}
+	for _, cj := range core.Calls(cf) {
+		if a := releaseArg(cj, r, depth+1); a != nil && a == ssa.Value(cf.Params[1]) {
+			return cc.Args[1]
+		}
+	}
+	return nil
+}
+
+// c12AllowedWriters: reset, AddChild, RemoveAndReleaseTree and the node-API helpers they (statically) call.
+func c12AllowedWriters(r *c12roles) map[*ssa.Function]bool {
+	allowed := map[*ssa.Function]bool{}
+	var grow func(f *ssa.Function)
+	grow = func(f *ssa.Function) {
+		if f == nil || allowed[f] || core.FuncPkg(f) != r.idr || !r.nodeAPIFunc(f) {
+			return
+		}
+		allowed[f] = true
+		for _, ci := range core.Calls(f) {
+			grow(ci.Common().StaticCallee())
+		}
+	}
+	grow(r.addChild)
+	grow(r.remove)
+	for _, rf := range r.resetFns {
+		grow(rf)
+	}
+	return allowed
 }
